@@ -37,7 +37,14 @@ def main():
     rc1, o1 = sh([PY, demo], cwd=d, env=env_wt, timeout=180)
     out['demo_with_patch'] = rc1
     out['demo_with_patch_tail'] = o1.strip().splitlines()[-3:]
-    rc, o = sh([PY, '-m', 'pytest', '-q', '-p', 'no:cacheprovider', '--timeout=180', 't/unit'], cwd=wt, env=env_wt)
+    # (test_on_ready_counter_is_synchronized gives a spawn-context worker one second to start: under load it
+    # fails or hangs on the unchanged tree too; it is run apart, with a short leash, and reported separately)
+    flaky = 't/unit/test_pool.py::test_pool::test_on_ready_counter_is_synchronized'
+    rc, o = sh([PY, '-m', 'pytest', '-q', '-p', 'no:cacheprovider', '--timeout=180', '--deselect', flaky, 't/unit'],
+               cwd=wt, env=env_wt, timeout=600)
+    rcf, of = sh(['timeout', '-k', '5', '90', PY, '-m', 'pytest', '-q', '-p', 'no:cacheprovider', flaky], cwd=wt, env=env_wt,
+                 timeout=120)
+    out['flaky_test_rc'] = rcf
     out['tests_rc'] = rc
     out['tests_tail'] = o.strip().splitlines()[-1:]
     out['tests_failed'] = [ln for ln in o.splitlines() if ln.startswith('FAILED')]
@@ -45,8 +52,7 @@ def main():
     rc2, o2 = sh([PY, demo], cwd=d, env=env_repo, timeout=180)
     out['demo_without_patch'] = rc2
     out['demo_without_patch_tail'] = o2.strip().splitlines()[-2:]
-    out['confirmed'] = rc1 != 0 and rc2 == 0 and (rc == 0 or all(
-        'test_on_ready_counter_is_synchronized' in f for f in out['tests_failed']))
+    out['confirmed'] = rc1 != 0 and rc2 == 0 and rc == 0
     print(json.dumps(out, indent=1))
     return 0 if out['confirmed'] else 1
 
